@@ -16,7 +16,10 @@ ROWS, COLS = F(P(0), "rows"), F(P(0), "cols")
 
 
 def matrix_fns(pdb):
-    return [f for f in pdb.local_fns() if f["file"] in MATRIX_FILES and not f.get("derived")]
+    from .common import involves_adt
+    solve = ("max_abs_in_column", "backsolve", "partial_pivot", "gauss_with_pivot", "solve_basic", "lu_decomp_in_place", "solve_lu", "determinant", "inverse")
+    return [f for f in pdb.local_fns() if not f.get("derived") and f["file"] != "src/matrix/solve.rs" and
+            (f["file"] in MATRIX_FILES or (involves_adt(f, "matrix::Matrix") and f.get("name") not in solve))]
 
 
 def _need(rep, pdb, path, key, rule):
@@ -569,12 +572,17 @@ def _pos(n):
     return (sp[0], sp[1]) if sp else (0, 0)
 
 
+FILE_ADTS = {("src/matrix/arithmetic.rs",): ("matrix::Matrix",), ("src/vector/arithmetic.rs",): ("vector::Vector",),
+             ("src/polynomial/arithmetic.rs",): ("polynomial::Polynomial",), ("src/banded.rs",): ("banded::Banded",), ("src/tridiagonal.rs",): ("tridiagonal::Tridiagonal",)}
+
+
 def rule_delegation(rep, pdb, files, key="delegation"):
     """Consuming operator impls are a single call of the borrowing impl on (&self,&rhs) in operand order."""
     from .c20 import OPS
     n = 0
     for fn in pdb.local_fns():
-        if fn["file"] not in files:
+        from .common import involves_adt
+        if not (fn["file"] in files or any(involves_adt(fn, a_) for a_ in FILE_ADTS.get(files, ()))):
             continue
         tr = fn.get("impl_trait")
         if tr not in OP_OF_TRAIT or fn["impl_self"].startswith("&"):
@@ -600,7 +608,8 @@ def run(rep, pdb, tier):
     n_el = 0
     for fn in fns:
         tr = fn.get("impl_trait")
-        if fn["file"] == "src/matrix/arithmetic.rs" and tr in OP_OF_TRAIT and forwards_to(pdb, fn) is None:
+        from .common import involves_adt
+        if (fn["file"] == "src/matrix/arithmetic.rs" or involves_adt(fn, "matrix::Matrix")) and tr in OP_OF_TRAIT and forwards_to(pdb, fn) is None:
             # Matrix*Matrix and Matrix*Vector are products, not element-wise
             args = fn.get("impl_trait_args", [])
             rhs = args[1] if len(args) > 1 else ""
